@@ -425,7 +425,31 @@ def minimise(wd, payload):
     return out
 
 
+def replay_broken(payload):
+    """Replay of a 'no-failing-input-found' file: re-run the disagreeing cases through real code and model."""
+    L.setup_api()
+    still = 0
+    for b in payload.get("broken", []):
+        if b.get("kind") != "correspondence":
+            print("broken proof obligation:", b.get("what"))
+            still += 1
+            continue
+        c = b["case"]
+        with L.Workdir() as wd:
+            info = L.parse_invoke(wd.path, c["kernels"], [tuple(x) for x in c["calls"]], "replay")
+            r = run_history_real(info, c["dm"], steps=c["steps"])
+        mo = driver("C23", [model_line(r["init"], r["steps"])])[0]
+        m = parse_sx(mo) if mo.startswith("(") else None
+        agreed = m is not None and m[0] == r["results"] and m[3] == r["final"] and not (r["gen"] == "ok" and m[1] == 0)
+        print("steps:", r["steps"], "\nreal results:", r["results"], "gen:", r["gen"], "\nreal final:", r["final"], "\nmodel:", mo,
+              "\n->", "agree" if agreed else "DISAGREE")
+        still += 0 if agreed else 1
+    return 1 if still else 0
+
+
 def replay(payload, quiet=False):
+    if "kernels" not in payload:
+        return replay_broken(payload)
     L.setup_api()
     with L.Workdir() as wd:
         info = L.parse_invoke(wd.path, payload["kernels"], [tuple(c) for c in payload["calls"]], "replay")
